@@ -3,6 +3,7 @@
 use crate::evidence::Ctx;
 
 pub mod c09;
+pub mod cluster_props;
 pub mod pool_props;
 pub mod c11;
 pub mod c12;
@@ -16,6 +17,8 @@ pub mod c20;
 
 pub fn run(ctx: &mut Ctx) -> Result<(), String> {
     match ctx.prop.as_str() {
+        "C01" => cluster_props::run_c01(ctx),
+        "C02" => cluster_props::run_c02(ctx),
         "C03" => pool_props::run(ctx, "C03", 480, 40_000),
         "C04" => pool_props::run(ctx, "C04", 480, 40_000),
         "C06" => pool_props::run(ctx, "C06", 480, 40_000),
